@@ -19,6 +19,9 @@ var checks = map[string]func(*ctx){
 	"C01": runC01,
 	"C02": runC02,
 	"C03": runC03,
+	"C13": runC13,
+	"C14": runC14,
+	"C15": runC15,
 }
 
 func main() {
